@@ -106,7 +106,7 @@ pub fn run(ctx: &mut Ctx) -> bool {
             searchsem::run_c12(ctx);
         }
         "C03" => {
-            ctx.rule = "Cases are UCI sessions against the real release binary: a game-like non-terminal position given as `position fen F`, `position startpos moves ...` or `position fen F0 moves ...` (incl. a promotion-rich family: pawn one step from promotion, opponent able to castle or capture en passant next; a directed promotion-then-castling family; and a declined-en-passant family: double step beside an enemy pawn, quiet piece moves by both sides, then go), then a chain of 1-6 `go` commands with parameters from {bare, ignored tokens only, zero / negative / below-margin clocks, 1-5 ms slice, <= 120 ms slice} x {increment or not} x {movestogo absent or 1..40} in any token order; consecutive gos continue from the engine's previous answer (tracked by the oracle); one go in six is followed at once by a `stop` line. Two more families: positions of extreme but legal material with 60 to 218 legal moves, and `position ... moves` lines of 700 to 13500 plies. After each go exactly one line `bestmove <from><to>[qrbn]` must arrive before the `readyok` fencing a following `isready`, the move must be legal in the current position with the promotion letter present iff it promotes. Sessions run 16 at a time, 48 at a time (oversubscribed) and with every engine pinned to ONE core (taskset; search and I/O thread time-slice on a single CPU) to vary thread interleavings. evaluations = go commands. Non-trivial = the answer is a capture, castling, en passant, promotion or a check evasion, or it answers a second-or-later go of a chain; distinct by (position text, index in chain, go text).".into();
+            ctx.rule = "Cases are UCI sessions against the real release binary: a game-like non-terminal position given as `position fen F`, `position startpos moves ...` or `position fen F0 moves ...` (incl. a promotion-rich family: pawn one step from promotion, opponent able to castle or capture en passant next; a directed promotion-then-castling family; and a declined-en-passant family: double step beside an enemy pawn, quiet piece moves by both sides, then go), then a chain of 1-6 `go` commands with parameters from {bare, ignored tokens only, zero / negative / below-margin clocks, 1-5 ms slice, <= 120 ms slice} x {increment or not} x {movestogo absent or 1..40} in any token order; consecutive gos continue from the engine's previous answer (tracked by the oracle); one go in six is followed at once by a `stop` line. Every eighth engine process (in all black-box checks) is started with front-end options (`--fen <valid FEN>`, `-d N`, `-S`) that belong to the bench / self-play modes and must not leak into the UCI session. Two more families: positions of extreme but legal material with 60 to 218 legal moves, and `position ... moves` lines of 700 to 13500 plies. After each go exactly one line `bestmove <from><to>[qrbn]` must arrive before the `readyok` fencing a following `isready`, the move must be legal in the current position with the promotion letter present iff it promotes. Sessions run 16 at a time, 48 at a time (oversubscribed) and with every engine pinned to ONE core (taskset; search and I/O thread time-slice on a single CPU) to vary thread interleavings. evaluations = go commands. Non-trivial = the answer is a capture, castling, en passant, promotion or a check evasion, or it answers a second-or-later go of a chain; distinct by (position text, index in chain, go text).".into();
             ctx.assumptions = vec!["OS schedules of the two engine threads are sampled under three scheduling regimes (free, oversubscribed, single core), not enumerated; the deterministic half (every board the search can hand back at every expiry point is a legal root successor) is C07".into()];
             blackbox::run_c03(ctx);
         }
